@@ -1,3 +1,6 @@
+import json
+import os
+
 from check import Prop
 
 
@@ -38,6 +41,24 @@ class C12(Prop):
                    "edit by the correspondence run; deprecated alias parameters are not generated)",
                    "Core.run handles one configuration request at a time (single goroutine)",
                    "Clone gives each optional path a fresh cell (C11)"]
+
+
+    def run_drivers(self, ctx, n, seed, replay=None):
+        # the driver keeps the request being handled in c12_inflight.json; if the process dies (a configuration that
+        # must not have been accepted can crash the server) that request becomes a case of its own
+        infl = os.path.join(ctx.workdir, "c12_inflight.json")
+        if os.path.exists(infl):
+            os.remove(infl)
+        cases, summaries, errors = super().run_drivers(ctx, n, seed, replay)
+        if os.path.exists(infl):
+            try:
+                d = json.load(open(infl))
+            except Exception:
+                d = {"note": "in-flight file unreadable"}
+            os.remove(infl)
+            cases.append({"coq": "(Unanswered %s)" % ("Http" if d.get("mode") == "http" else "Direct"), "desc": d,
+                          "class": "crashed", "nontrivial": True, "driver": "TestVerifC12", "id": len(cases)})
+        return cases, summaries, errors
 
 
 PROP = C12()
